@@ -63,12 +63,113 @@ def cases(rng, tier):
     # histories on ONE server: registry changes between requests (secret rotation, method change, deletion)
     for how in ("basic", "post", "none"):
         out.append({"op": "history", "how": how})
+    # histories of client assertions on ONE server (jti store): replay, other jti, other client, clock
+    for i in range(40 if tier == "quick" else 600):
+        out.append(gen_assert_history(rng))
     # assertions
     for kind in ("client_secret_jwt", "private_key_jwt"):
         for mut in ["none", "iss", "sub", "aud", "aud-list", "exp-past", "exp-missing", "jti-missing", "iss-missing", "sub-missing", "aud-missing", "bad-sig", "alg-none",
                     "unknown-client", "other-clients-key", "type-wrong", "type-missing", "replay", "nbf-future", "iat-future", "exp-within-leeway", "not-registered-method"]:
             out.append({"op": "assertion", "kind": kind, "mut": mut})
     return out
+
+
+AH_SECRETS = {"jwtc": "jwt-shared-secret-jwt-shared-secret", "basic": "sb-padded-to-a-usable-hmac-key-length"}
+
+
+def gen_assert_history(rng):
+    """requests = client assertions described by their claims and signing key; mostly valid, with replays and single defects"""
+    reqs, jtis = [], []
+    t = 0
+    for _ in range(rng.randrange(3, 9)):
+        sub = rng.choice(["jwtc"] * 6 + ["basic", "ghost"])
+        r = {"sub": sub, "iss": sub, "aud": ms.TOKEN_URL, "exp": 300, "jti": f"j{len(jtis)}", "key": sub, "type": "ok", "dt": rng.choice([0, 0, 1, 30, 200, 400])}
+        if jtis and rng.random() < 0.35:
+            r["jti"] = rng.choice(jtis)
+        flaw = rng.choice([None] * 5 + ["iss", "aud", "aud-list", "exp-past", "exp-leeway", "no-jti", "no-exp", "no-sub", "key", "type", "no-type", "alg-none", "jti-other-sub", "nbf-future"])
+        if flaw == "iss": r["iss"] = "someone-else"
+        elif flaw == "aud": r["aud"] = "https://other/token"
+        elif flaw == "aud-list": r["aud"] = ["https://other/token", ms.TOKEN_URL]
+        elif flaw == "exp-past": r["exp"] = -1000
+        elif flaw == "exp-leeway": r["exp"] = -30
+        elif flaw == "no-jti": r["jti"] = None
+        elif flaw == "no-exp": r["exp"] = None
+        elif flaw == "no-sub": r["sub"] = None
+        elif flaw == "key": r["key"] = "other"
+        elif flaw == "type": r["type"] = "wrong"
+        elif flaw == "no-type": r["type"] = None
+        elif flaw == "alg-none": r["key"] = None
+        elif flaw == "jti-other-sub" and jtis: r["sub"] = r["iss"] = r["key"] = "basic"; r["jti"] = rng.choice(jtis)
+        elif flaw == "nbf-future": r["nbf"] = 1000
+        jtis.append(r["jti"] or "x")
+        reqs.append(r)
+    return {"op": "assert_history", "reqs": reqs}
+
+
+def ah_token(r, now):
+    claims = {}
+    for k in ("iss", "sub", "aud", "jti"):
+        if r.get(k) is not None:
+            claims[k] = r[k]
+    if r.get("exp") is not None:
+        claims["exp"] = now + r["exp"]
+    if r.get("nbf") is not None:
+        claims["nbf"] = now + r["nbf"]
+    claims["iat"] = now
+    if r["key"] is None:
+        h = base64.urlsafe_b64encode(json.dumps({"alg": "none"}).encode()).rstrip(b"=").decode()
+        p = base64.urlsafe_b64encode(json.dumps(claims).encode()).rstrip(b"=").decode()
+        return h + "." + p + ".", claims
+    secret = AH_SECRETS.get(r["key"], "another-secret-another-secret-another")
+    tok = jwt.encode({"alg": "HS256"}, claims, secret.encode())
+    return (tok.decode() if isinstance(tok, bytes) else tok), claims
+
+
+def impl_assert_history(c):
+    ms.install_clock(); CLOCK.now = 1_000_000
+    store, srv = make_server()
+    store.clients["basic"] = Client("basic", AH_SECRETS["basic"], ["https://c/cb"], "a b", ms.ALL_GRANT_TYPES, ms.ALL_RESPONSE_TYPES, "client_secret_basic")
+    ms.ClientCredentialsGrant.TOKEN_ENDPOINT_AUTH_METHODS = ["client_secret_basic", "client_assertion_jwt"]
+    steps = []
+    try:
+        for r in c["reqs"]:
+            CLOCK.now += r["dt"]
+            tok, _ = ah_token(r, CLOCK())
+            form = {"grant_type": "client_credentials", "client_assertion": tok}
+            if r["type"] == "ok": form["client_assertion_type"] = "urn:ietf:params:oauth:client-assertion-type:jwt-bearer"
+            elif r["type"] == "wrong": form["client_assertion_type"] = "urn:bogus"
+            n = len(store.tokens)
+            try:
+                resp = srv.create_token_response(Req("POST", ms.TOKEN_URL, form, {}))
+                body = resp.body if isinstance(resp.body, dict) else {}
+                if resp.status == 200 and len(store.tokens) == n + 1:
+                    steps.append("authenticated:" + store.tokens[-1].client_id)
+                else:
+                    steps.append(body.get("error") or f"status{resp.status}")
+            except Exception as e:
+                steps.append("raised:" + type(e).__name__)
+        return {"steps": steps, "used": sorted(store.jtis)}
+    finally:
+        ms.ClientCredentialsGrant.TOKEN_ENDPOINT_AUTH_METHODS = ["client_secret_basic", "client_secret_post"]
+
+
+def assert_history_line(c):
+    from props.c04 import enc
+    import hashlib, hmac as _hmac
+    now = 1_000_000
+    reqs = []
+    for r in c["reqs"]:
+        now += r["dt"]
+        tok, claims = ah_token(r, now)
+        sub = claims.get("sub")
+        sig_ok = False
+        if r["key"] is not None and sub in AH_SECRETS:
+            h, p, sg = tok.split(".")
+            want = _hmac.new(AH_SECRETS[sub].encode(), (h + "." + p).encode(), hashlib.sha256).digest()
+            sig_ok = _hmac.compare_digest(want, base64.urlsafe_b64decode(sg + "=" * (-len(sg) % 4)))
+        reqs.append({"type_ok": r["type"] == "ok", "claims": [[k, enc(v)] for k, v in claims.items()], "sig_ok": sig_ok, "now": 4 * now})
+    return {"token_url": ms.TOKEN_URL, "jwt_clients": [{"id": "jwtc", "jwt": True}, {"id": "pkjwt", "jwt": True}, {"id": "basic", "jwt": False}, {"id": "post", "jwt": False},
+                                                    {"id": "pub", "jwt": False}, {"id": "both", "jwt": False}], "reqs": reqs}
 
 
 def make_server():
@@ -109,6 +210,8 @@ def impl(c):
         return impl_endpoint(c, store, srv)
     if c["op"] == "history":
         return impl_history(c, store, srv)
+    if c["op"] == "assert_history":
+        return impl_assert_history(c)
     return impl_assertion(c, store, srv)
 
 
@@ -221,6 +324,8 @@ def impl_assertion(c, store, srv):
 
 
 def model_line(c):
+    if c["op"] == "assert_history":
+        return assert_history_line(c)
     if c["op"] != "auth":
         return None
     h = c["header"]
@@ -241,6 +346,12 @@ def model_line(c):
 
 def project(c, out):
     return out
+
+
+def model_canon(mo):
+    if isinstance(mo, dict) and "used" in mo:
+        mo = dict(mo, used=sorted(mo["used"]))
+    return mo
 
 
 # ---------------------------------------------------------------------------------------------- the statement, independently
@@ -338,6 +449,28 @@ def oracle(c, out):
                 bad(f"{ep}: failed client authentication changed stored state or issued something", kind="side-effect", endpoint=ep)
             if out["status"] == 401 and not out["www"]:
                 bad("401 without WWW-Authenticate", kind="status", endpoint=ep)
+    elif c["op"] == "assert_history":
+        accepted = set()
+        for r, st in zip(c["reqs"], out["steps"]):
+            if st.startswith("raised:"):
+                bad(f"assertion authentication raised {st}", kind="crash", exc=st.split(":")[1], mut="history"); continue
+            ok_claims = (r["type"] == "ok" and r["sub"] == "jwtc" and r["iss"] == r["sub"] and r["key"] == r["sub"] and r["jti"] is not None and r["exp"] is not None
+                         and r["exp"] >= -60 and (r["aud"] == ms.TOKEN_URL or (isinstance(r["aud"], list) and ms.TOKEN_URL in r["aud"])) and r.get("nbf") is None)
+            key = (r["sub"], r["jti"])
+            fresh = key not in accepted
+            if st.startswith("authenticated:"):
+                if not ok_claims:
+                    bad(f"client authenticated by an assertion that is forged, mis-addressed, expired or from a client not registered for the method: {r}", kind="authenticated-wrongly", mut="history")
+                elif not fresh:
+                    bad(f"an assertion with an already used jti {key} authenticated the client again", kind="authenticated-wrongly", mut="replay-history")
+                elif st != "authenticated:" + r["sub"]:
+                    bad(f"assertion of {r['sub']} authenticated {st}", kind="authenticated-wrongly", mut="other-client")
+                accepted.add(key)
+            else:
+                if st != "invalid_client":
+                    bad(f"failed assertion answered {st} instead of invalid_client", kind="not-invalid-client", mut="history")
+                if ok_claims and fresh:
+                    bad(f"valid client assertion refused ({st}): {r}", kind="valid-refused", mut="history")
     else:
         steps = out["steps"]
         mut = c["mut"]
@@ -364,6 +497,8 @@ def classify(c, out):
         return f"endpoint/{c['endpoint']}/{out.get('status')}/{out.get('error')}"
     if c["op"] == "history":
         return "history/" + c["how"]
+    if c["op"] == "assert_history":
+        return "assert_history/" + str(len(c["reqs"]))
     return "assertion/" + c["mut"]
 
 
